@@ -35,6 +35,7 @@ THEOREMS = [
     "NfcVerif.C05.dlc_emsgsize",
     "NfcVerif.C05.dlc_collect_covered",
     "NfcVerif.C05.dlc_no_stuck",
+    "NfcVerif.C05.dlc_wakeup_rechecks",
 ]
 
 OTHER = {"A": "B", "B": "A"}
@@ -300,6 +301,207 @@ def exhaustive(ck, cfg, depth, warm, label, alphabet=ALPHABET):
     return out
 
 
+class SchedExec:
+    """one deterministic schedule of application threads blocked in send() / recv() on real sockets.
+
+    scenario = (kind, k, rwA, rwB, spurious): kind "send": k threads each call the blocking
+    send(socket A, one message); the scheduler decides after every step who continues: a thread that
+    has not started, a parked thread that was notified (or, `spurious` times, one that was not), or the
+    link (everything A -> B, B's application reads everything, everything B -> A).
+    kind "recv": k threads call the blocking recv(socket B); every link step first lets A's application
+    send its next message (k in total, non-blocking).
+    The decisions are taken from `prefix`, then always the first option; `self.width` records how many
+    options there were at every decision so that the caller can enumerate all schedules."""
+
+    def __init__(self, ck, scen, prefix, rng=None):
+        import nfc.llcp
+        from sims.dlc_pair import Pair
+        from sims.dlc_sched import Sched
+        self.ck, self.scen, self.cfg, self.label = ck, scen, (scen[2], scen[3], 128, 128, 128, False), "sched-" + scen[0]
+        kind, k, rwA, rwB, spurious = scen
+        self.pair = p = Pair(rwA, rwB, 128, 128, 128, False)
+        self.sched = sch = Sched()
+        for x in "AB":
+            sch.instrument(p.s[x], x)
+        self.lines, self.real = [p.init_line()], [None]
+        self.stats, self.failed = {}, set()
+        self.got = {"A": [], "B": []}
+        self.accepted, self.trace, self.width, self.choice = [], [], [], []
+        sa, sb, A, B = p.s["A"], p.s["B"], p.L["A"], p.L["B"]
+        msgs = [bytes([0xA0 + i, i]) for i in range(k)]
+        if kind == "send":
+            for i in range(k):
+                sch.spawn("S%d" % i, (lambda m: lambda: A.send(sa, m, 0))(msgs[i]))
+        else:
+            for i in range(k):
+                sch.spawn("R%d" % i, lambda: B.recv(sb))
+        fed, spur, last_vs, seen = 0, 0, 0, 0
+        noop = set()
+        try:
+            for depth in range(80):
+                opts = []
+                new = [t for t in sch.threads if t.state == "new"]
+                if new:
+                    opts.append(("run", sch.threads.index(new[0])))
+                for i, t in enumerate(sch.threads):
+                    if t.state == "parked" and t.notified:
+                        opts.append(("run", i))
+                    elif t.state == "parked" and spur < spurious and ("spur", i) not in noop:
+                        opts.append(("spur", i))
+                if ("link",) not in noop:
+                    opts.append(("link",))
+                if not opts:
+                    break
+                # a sender woken on send_ready only returns from send(): independent of everything else,
+                # so it runs at once and is not a decision
+                forced = [o for o in opts if o[0] == "run" and sch.threads[o[1]].cv is not None
+                          and sch.threads[o[1]].cv.name.endswith("send_ready")]
+                if forced:
+                    act = forced[0]
+                else:
+                    di = len(self.choice)
+                    c = prefix[di] if di < len(prefix) else (rng.randrange(len(opts)) if rng else 0)
+                    self.width.append(len(opts))
+                    self.choice.append(c)
+                    act = opts[c]
+                self.trace.append(act[0] if len(act) == 1 else "%s %s" % (act[0], sch.threads[act[1]].name))
+                before = p.digest()
+                if act[0] in ("run", "spur"):
+                    spur += act[0] == "spur"
+                    sch.run(sch.threads[act[1]])
+                    delta = (sa.send_cnt - last_vs) % 16
+                    last_vs = sa.send_cnt
+                    if delta:
+                        newp = [q for q in sa.send_queue if q.name == "I"][-delta:]
+                        for j, q in enumerate(newp):
+                            self.accepted.append(bytes(q.data))
+                            self.lines.append("send A " + hx(q.data))
+                            self.real.append("ok | " + p.digest() if j == len(newp) - 1 else None)
+                    for t in sch.threads:
+                        if t.state == "done" and not t.reported:
+                            t.reported = True
+                            self.stat("thread-returned")
+                            if t.result[0] == "exc":
+                                self.fail("dlc-blocking-call-raised", "%s raised %r" % (t.name, t.result[1]))
+                            elif kind == "recv" and t.result[1] is not None:
+                                self.got["B"].append(bytes(t.result[1]))
+                                self.lines.append("recv B")
+                                self.real.append("ok %s | %s" % (hx(t.result[1]), p.digest()))
+                            elif kind == "send" and t.result[1] is not True:
+                                self.fail("dlc-blocking-call-raised", "%s returned %r" % (t.name, t.result[1]))
+                elif act[0] == "link":
+                    if kind == "recv" and fed < k:          # the sending application offers its next message
+                        if self.do("send A " + hx(msgs[fed])) == "ok":
+                            self.accepted.append(msgs[fed])
+                            fed += 1
+                            last_vs = sa.send_cnt
+                    for _ in range(20):
+                        if self.do("collect A") == "none":
+                            break
+                    while self.do("deliver B").startswith("ok"):
+                        pass
+                    if kind == "send":
+                        while True:
+                            r = self.do("recv B")
+                            if not r.startswith("ok "):
+                                break
+                            self.got["B"].append(bytes.fromhex(r[3:]))
+                    for _ in range(20):
+                        if self.do("collect B") == "none":
+                            break
+                    while self.do("deliver A").startswith("ok"):
+                        pass
+                if p.digest() == before and act[0] != "run":
+                    noop.add(act)
+                elif p.digest() != before:
+                    noop.clear()
+                self.judge()
+                if p.link_down:
+                    self.fail("dlc-frame-codec", p.link_down)
+                    break
+            self.final(kind, k)
+        finally:
+            sch.teardown()
+
+    def stat(self, key, n=1):
+        self.stats[key] = self.stats.get(key, 0) + n
+
+    def do(self, line):
+        r = self.pair.op(line)
+        self.lines.append(line)
+        self.real.append(r + " | " + self.pair.digest())
+        return r
+
+    def fail(self, key, what):
+        if key in self.failed:
+            return
+        self.failed.add(key)
+        self.ck.fail(key, "%s [schedule %s: %s]" % (what, list(self.scen), ", ".join(self.trace)),
+                     {"scenario": list(self.scen), "decisions": list(self.choice), "schedule": list(self.trace)})
+
+    def judge(self):
+        p = self.pair
+        sa, rw = p.s["A"], self.scen[3]
+        out = (sa.send_cnt - sa.send_ack) % 16
+        if sa.state.ESTABLISHED and out > rw:
+            self.fail("dlc-window-exceeded", "blocking send(): V(S)-V(SA) = %d unacknowledged I PDUs, peer announced RW=%d" % (out, rw))
+        if len(self.accepted) - len(self.got["B"]) > rw:
+            self.fail("dlc-window-exceeded", "blocking send(): %d messages numbered and not received by the peer application, RW=%d"
+                      % (len(self.accepted) - len(self.got["B"]), rw))
+        for d in "AB":
+            for q in p.wirelog[d]:
+                if q.name == "FRMR":
+                    self.fail("dlc-frmr-generated", "%s sent %s" % (d, q))
+        if self.got["B"] != self.accepted[:len(self.got["B"])]:
+            self.fail("dlc-delivery-not-prefix", "B's application received %s, A numbered %s"
+                      % ([hx(m) for m in self.got["B"]], [hx(m) for m in self.accepted]))
+
+    def final(self, kind, k):
+        """quiescence: nothing is enabled any more"""
+        p, sch = self.pair, self.sched
+        left = [bytes(q.data) for q in p.s["B"].recv_queue if q.name == "I"]
+        stuck = [t.name for t in sch.threads if t.state == "parked"]
+        if kind == "send":
+            if stuck:
+                self.fail("dlc-blocked-send-never-resumed", "threads %s still wait although the link is idle" % stuck)
+            elif self.got["B"] + left != self.accepted or len(self.accepted) != k:
+                self.fail("dlc-message-lost", "%d threads sent, A numbered %d, B received %d (+%d queued)"
+                          % (k, len(self.accepted), len(self.got["B"]), len(left)))
+        else:
+            if sorted(self.got["B"] + left) != sorted(self.accepted) or (len(self.accepted) == k and self.got["B"] + left != self.accepted):
+                self.fail("dlc-message-lost", "A sent %s, blocked recv() calls returned %s, still queued %s"
+                          % ([hx(m) for m in self.accepted], [hx(m) for m in self.got["B"]], [hx(m) for m in left]))
+            if stuck and left:
+                self.fail("dlc-blocked-recv-never-resumed", "threads %s wait although %d messages are queued" % (stuck, len(left)))
+        self.stat("schedules")
+        self.stat("decisions", len(self.choice))
+
+
+def schedules(ck, scen, budget):
+    """all schedules of `scen` in depth-first order (stateless: every schedule is a fresh execution);
+    beyond `budget` executions the rest of the tree is sampled at random"""
+    out, prefix, n = [], [], 0
+    complete = True
+    while True:
+        e = SchedExec(ck, scen, prefix)
+        out.append(e)
+        n += 1
+        ch, wd = e.choice, e.width
+        i = len(ch) - 1
+        while i >= 0 and ch[i] + 1 >= wd[i]:
+            i -= 1
+        if i < 0:
+            break
+        if n >= budget:
+            complete = False
+            break
+        prefix = ch[:i] + [ch[i] + 1]
+    if not complete:
+        for _ in range(budget // 2):
+            out.append(SchedExec(ck, scen, [], rng=ck.rng))
+    return out, complete
+
+
 LOCKS = {"lock", "send_ready", "recv_ready", "send_token", "acks_ready"}
 WHOLE_BODY_LOCKED = {"TransmissionControlObject": ["send", "recv", "close", "enqueue", "dequeue"],
                      "DataLinkConnection": ["send", "recv", "close", "dequeue", "setsockopt"]}
@@ -381,7 +583,7 @@ def lock_regions(ck):
 
 def run(ck):
     rng = ck.rng
-    ck.rule = ("a case is one history: (RW_A, RW_B, MIU_A, MIU_B, link MIU, aggregation, sequence of steps on two real "
+    ck.rule = ("(schedules of blocked threads count as histories too: scenario + decision list) a case is one history: (RW_A, RW_B, MIU_A, MIU_B, link MIU, aggregation, sequence of steps on two real "
                "controllers); bounded-exhaustive: every sequence of length d over a 10-letter step alphabet from the "
                "fresh connection and from a state one message before the modulo-16 wrap; random: walks with changing "
                "step weights over the RW grid 1..15 x 1..15; non-trivial = at least one message was delivered or "
@@ -417,8 +619,14 @@ def run(ck):
     walks = []
     # ---- bounded exhaustive short histories
     d0 = 4
-    walks += exhaustive(ck, (1, 2, 128, 128, 128, True), d0, 0, "exhaustive-%d" % d0)
-    walks += exhaustive(ck, (2, 1, 128, 130, 140, False), 3, 0, "exhaustive-3")
+    if ck.thorough:
+        walks += exhaustive(ck, (1, 2, 128, 128, 128, True), d0, 0, "exhaustive-%d" % d0)
+    else:   # quick: depth 4 without the busy letter, depth 3 with it
+        walks += exhaustive(ck, (1, 2, 128, 128, 128, True), d0, 0, "exhaustive-%d" % d0,
+                            alphabet=[a for a in ALPHABET if not a.startswith("busy")])
+        walks += exhaustive(ck, (1, 2, 128, 128, 128, True), 3, 0, "exhaustive-3")
+    if ck.thorough:
+        walks += exhaustive(ck, (2, 1, 128, 130, 140, False), 3, 0, "exhaustive-3")
     walks += exhaustive(ck, (1, 1, 128, 128, 128, True), 3, 15, "exhaustive-3-at-wrap")
     if ck.thorough:
         walks += exhaustive(ck, (2, 1, 128, 128, 2175, True), 5, 0, "exhaustive-5",
@@ -438,6 +646,23 @@ def run(ck):
         n = rng.randrange(10, 200)
         walks.append(random_walk(ck, random_cfg(rng), n, "close", micro=i % 3 == 0, close_at=rng.randrange(0, n)))
 
+    # ---- blocking send() / recv(): all schedules of k threads against the link (no real preemption)
+    scens = [("send", 2, 1, 1, 0), ("send", 3, 1, 1, 0), ("send", 3, 2, 2, 0), ("send", 2, 1, 1, 1), ("send", 3, 1, 1, 1),
+             ("recv", 2, 2, 2, 0), ("recv", 2, 1, 1, 1), ("recv", 3, 1, 1, 0)]
+    if ck.thorough:
+        scens += [("recv", 3, 3, 3, 0), ("send", 3, 2, 2, 1), ("send", 3, 1, 2, 0), ("recv", 3, 2, 2, 1), ("send", 3, 2, 1, 1)]
+    nsched, allc = 0, True
+    for scen in scens:
+        out, complete = schedules(ck, scen, 3000 if ck.thorough else 1200)
+        walks += out
+        nsched += len(out)
+        allc = allc and complete
+        ck.count("schedules:%s-k%d-rw%d%s" % (scen[0], scen[1], scen[3], "-spurious" if scen[4] else ""), len(out))
+    ck.notes.append("blocking send()/recv(): %d schedules of 2..3 application threads against the link on real sockets "
+                    "(condition-variable double, strict baton, one decision per wake-up / thread start / link round; %s); "
+                    "oracle: window, prefix, nothing lost, nobody left waiting; every schedule is also replayed on the model"
+                    % (nsched, "every scenario enumerated completely" if allc else "largest scenarios sampled beyond the budget"))
+
     # ---- compare with the model
     lines = [l for w in walks for l in w.lines]
     replies = model.ask_many(lines)
@@ -449,7 +674,7 @@ def run(ck):
         bad = None
         for i in range(1, n):
             nops += 1
-            if rep[i] != w.real[i]:
+            if w.real[i] is not None and rep[i] != w.real[i]:
                 bad = i
                 break
         delivered = len(w.got["A"]) + len(w.got["B"])
@@ -468,8 +693,8 @@ def run(ck):
     ck.tie("two-endpoint DLC model vs two real controllers (histories)", cases=len(walks), disagreements=dis,
            exhaustive=False)
     ck.count("steps-compared", nops)
-    ck.notes.append("%d bounded-exhaustive histories (all sequences of the stated length over the 10-step alphabet), "
-                    "%d random histories, %d steps compared with the model after every step" % (nexh, len(walks) - nexh, nops))
-    ck.notes.append("real thread schedules are not explored: the theorems cover every interleaving of the atomic "
-                    "steps; atomicity of a step rests on the lock regions of tco.py (partial w.r.t. preemption inside "
-                    "critical sections)")
+    ck.notes.append("%d bounded-exhaustive histories (all sequences of the stated length over the 10-step alphabet; quick tier: depth 4 over 9 steps without busy, depth 3 over all 10), "
+                    "%d random histories and schedules, %d steps compared with the model after every step" % (nexh, len(walks) - nexh, nops))
+    ck.notes.append("thread schedules are explored at the granularity of whole critical sections (switches only at "
+                    "Condition.wait() / call return); the theorems cover every interleaving of the atomic steps; atomicity "
+                    "of a step rests on the lock regions of tco.py (partial w.r.t. preemption inside critical sections)")
